@@ -1020,6 +1020,11 @@ func readTcbInfoTcbStatus(tcbInfo pcs.TcbInfo, tdQuoteBody *pb.TDQuoteBody, pckC
 			return pcs.TcbLevel{}, err
 		}
 		logger.V(2).Info("Tdx Module TCB Status found: ", matchingTdxModuleTcbLevel.TcbStatus)
+		// The TDX module's status only refines an UpToDate platform TCB level; a platform level
+		// with any other status decides the outcome by itself.
+		if matchingTcbLevel.TcbStatus != pcs.TcbComponentStatusUpToDate {
+			return matchingTcbLevel, nil
+		}
 		return *matchingTdxModuleTcbLevel, nil
 	}
 
